@@ -100,14 +100,28 @@ fn main() {
     // tables (C18): registration, lookup, JSON round trip
     let mut t = StaticTypeResolver::new();
     t.add_all_types();
+    // user registrations of every kind of layout: zero-size (size < alignment), over-aligned, odd-sized, nested generics
+    t.add_type::<()>();
+    t.add_type::<std::marker::PhantomData<u64>>();
+    t.add_type_allow_uninit::<[u64; 0]>();
+    t.add_type::<verif_harness::userty::Foo>();
+    t.add_type_allow_uninit::<[u8; 13]>();
+    t.add_type::<(u8, u64, u16)>();
+    t.add_type::<Vec<Option<Box<str>>>>();
     let json = t.to_json_string().unwrap();
-    let back: StaticTypeResolver = serde_json::from_str::<std::collections::BTreeMap<String, truc::record::type_resolver::DynamicTypeInfo>>(&json).unwrap().into();
+    let back: StaticTypeResolver = match catch(|| -> StaticTypeResolver { serde_json::from_str::<std::collections::BTreeMap<String, truc::record::type_resolver::DynamicTypeInfo>>(&json).unwrap().into() }) {
+        Ok(b) => b,
+        Err(e) => {
+            writeln!(ora, "property=C18 a table cannot be loaded back from its own JSON form: {}", e.replace('\n', " ")).unwrap();
+            StaticTypeResolver::new()
+        }
+    };
     let keys: Vec<String> = t.to_json_value().unwrap().as_object().unwrap().keys().cloned().collect();
     let mut tables = 0;
     for k in &keys {
         tables += 1;
         let a = t.dynamic_type_info(k);
-        let b = back.dynamic_type_info(k);
+        let b = match catch(|| back.dynamic_type_info(k)) { Ok(b) => b, Err(_) => { writeln!(ora, "property=C18 table entry {} is missing after the JSON round trip", k).unwrap(); continue; } };
         if a.info != b.info || a.allow_uninit != b.allow_uninit {
             writeln!(ora, "property=C18 table entry {} differs after the JSON round trip", k).unwrap();
         }
